@@ -31,16 +31,19 @@ func VerifC10_Sum() {
 	vrt.SetClock(uint32(now))
 	maxF := 2
 	nf := 1 + vrt.Choose("files", maxF)
+	aid := vrtArchiveChoice(na)
 	names := []string{"a.wsp", "b.wsp", "c.wsp"}
 	var paths []string
-	var imgs [][]byte
 	for f := 0; f < nf; f++ {
-		img, _ := vrtCmdInvImage(h, vrt.N("f", f), now)
-		imgs = append(imgs, img)
+		var img []byte
+		if f == 0 {
+			img, _ = vrtCmdInvImage(h, vrt.N("f", f), now)
+		} else {
+			img = vrtCmdSecondImage(h, vrt.N("f", f), now, aid == ArchiveIDAll && na > 1)
+		}
 		paths = append(paths, vrt.TempFile("base/item1/"+names[f], img))
 	}
 	base := filepath.Dir(filepath.Dir(paths[0]))
-	aid := vrtArchiveChoice(na)
 	from := vrtCmdInstant(h, "from")
 	vrt.Assume(from <= now)
 	vrt.Reach("pre")
